@@ -324,10 +324,6 @@ def run(tier, seed):
     if os.environ.get("C15_SKIP_MC"):       # mutation experiments: the design check does not depend on the repository
         cfgs = []
         o.notes.append("design check skipped (C15_SKIP_MC)")
-    for c in cfgs:
-        r = vlib.tlc("C15", FAMILY, "SchedulerMC", c, timeout=1700 if thorough else 600, heap="6g" if thorough else "3g")
-        vlib.require_mc_ok(r, c)
-        o.add_mc(c[:-4], r)
     # controls: seeded defects in the design spec must violate the invariant meant to exclude them
     from concurrent.futures import ThreadPoolExecutor
     ctl = [] if os.environ.get("C15_SKIP_MC") else CONTROLS
@@ -335,9 +331,13 @@ def run(tier, seed):
     fdir = vlib.scratch("C15", FAMILY)
     with ThreadPoolExecutor(max_workers=8) as ex:
         ffut = None
-        if cfgs:
+        if cfgs:            # runs next to the other configurations
             ffut = ex.submit(vlib.tlc, "C15", FAMILY, "SchedulerMC", featcfg, timeout=1700 if thorough else 600,
-                             workers=6, heap="6g" if thorough else "3g", sdir=fdir)
+                             workers=4, heap="6g" if thorough else "3g", sdir=fdir)
+        for c in cfgs:
+            r = vlib.tlc("C15", FAMILY, "SchedulerMC", c, timeout=1700 if thorough else 600, heap="6g" if thorough else "3g")
+            vlib.require_mc_ok(r, c)
+            o.add_mc(c[:-4], r)
         res = list(ex.map(lambda cd: vlib.tlc("C15", FAMILY, "SchedulerMC", "SchedulerMC_ctl_%s.cfg" % cd[0][0], timeout=300,
                                               workers=2, heap="2g", sdir=cd[1]), zip(ctl, dirs)))
         if ffut is not None:
@@ -367,8 +367,9 @@ def run(tier, seed):
     if not o.violations:        # the controls corrupt ACCEPTED traces
         vlib.binding_selftest(o, FAMILY, "SchedulerTrace", "SchedulerTrace.cfg", tr, mutators())
     return vlib.finish(o, "model_checking", RULE,
-                       ["fake clock (clockwork.FakeClock); the clock only moves when every goroutine of the scheduler is durably blocked (testing/synctest), i.e. beacon requests and subscribers take no time",
-                        "'not early' is judged on the deadline the scheduler hands to its delay function (slot start + offset), as the property names it; the delay function itself returns at once",
+                       ["fake clock (clockwork.FakeClock), or the synctest bubble's virtual clock when a fetch_att_on_block flag is on; the clock only moves when every goroutine of the scheduler is durably blocked (testing/synctest), i.e. beacon requests and subscribers take no time",
+                        "'not early' is judged on the deadline the scheduler hands to its delay function (slot start + offset), as the property names it; the delay function itself returns at once; with a fetch_att_on_block flag on the attester duty does not use the delay function and is judged on the virtual instant of the subscriber call: not before slot start + 1/3 slot (+300 ms with fetch_att_on_block_with_delay), the documented fallback deadline",
+                        "whether and when a head event starts the early FetchOnly is not part of the property (recorded, not judged in trace validation; the design spec transcribes it and checks once-per-slot / never after the trigger)",
                         "'active' = reported active, or activating in the resolved epoch, by a validators answer used for that epoch",
                         "trace validation does not prescribe how often/where the next epoch is resolved on an epoch's last slot, nor which of several missed slots the ticker still emits (order and not-before-start are checked)",
                         "beacon answers are consistent per epoch (one truth per schedule); reorg handling (HandleChainReorgEvent) is out of scope"])
